@@ -1,4 +1,4 @@
-CONSTANTS NK = 20  NM = 2  MaxPasses = 22  Mode = "lim"  PruneNoop = TRUE
+CONSTANTS NK = 20  NM = 2  MaxPasses = 22  Mode = "lim"  PruneNoop = TRUE  WithPairs = TRUE
           Cases <- LimCasesT  Shapes <- NoShapes  Coins <- AllCoins  HashTypes <- StdHashTypes
 SPECIFICATION RSpec
 CHECK_DEADLOCK FALSE
